@@ -15,8 +15,27 @@ from corr.c01 import component_sizes, stems_of
 
 OPS = ["str", "pairs", "dot_bracket", "fcfs", "all_dot_brackets", "elements", "without_isolated", "without_pseudoknots"]
 # further public calls that must not disturb the object either; they are compared with fresh objects (the property
-# itself) but are not operations of the Lean object model, whose history is the sequence without them
-EXTRA_OPS = ["convert_none", "convert_default", "sequence"]
+# itself) AND with the extended Lean object model (`ss.history_ext`, Model/PureExt.lean, theorem
+# `C12Ext.history_as_fresh_ext`), which receives the FULL history.  `eq~SEQ~p1.p2...` = `b == <that structure>`.
+EXTRA_OPS = ["convert_none", "convert_default", "convert_raises", "convert_notopt", "sequence", "pairs_dict", "roundtrip"]
+
+
+def eq_op(seq, pairs):
+    return "eq~%s~%s" % (seq, ".".join(map(str, pairs)))
+
+
+def eq_variants(seq, pairs):
+    """`__eq__` against a copy, against the structure without its first pair, and against a shorter one"""
+    out = [eq_op(seq, pairs)]
+    k = next((i for i, p in enumerate(pairs) if p), None)
+    if k is not None:
+        q = list(pairs)
+        q[q[k] - 1] = 0
+        q[k] = 0
+        out.append(eq_op(seq, q))
+    if len(seq) > 1:
+        out.append(eq_op(seq[:-1], [0] * (len(seq) - 1)))
+    return out
 
 
 def answer(b, op):
@@ -45,6 +64,23 @@ def answer(b, op):
         return call(lambda: b.convert_to_dot_bracket(pulp.LpSolverDefault).structure)
     if op == "sequence":
         return call(lambda: b.sequence)
+    if op in ("convert_raises", "convert_notopt"):
+        # a present solver that fails: raises PulpSolverError / reports "not solved"
+        from corr.c13 import Spy
+        return call(lambda: b.convert_to_dot_bracket(Spy("raises" if op == "convert_raises" else "notsolved")).structure)
+    if op == "pairs_dict":
+        return call(lambda: ",".join("%d:%d" % (i, b.pairs[i]) for i in sorted(b.pairs)))
+    if op == "roundtrip":
+        from rnapolis.common import BpSeq
+
+        def rt():
+            r = BpSeq.from_string(str(b))
+            return "%s|%s" % (r, r == b)
+        return call(rt)
+    if op.startswith("eq~"):
+        _, s2, p2 = op.split("~")
+        other = g1.mk_bpseq(s2, [int(x) for x in p2.split(".")] if p2 else [])
+        return call(lambda: str(b == other))
     raise ValueError(op)
 
 
@@ -103,10 +139,15 @@ def run(ctx):
     seeds = [g1.from_dbn("(.[.).]"), g1.from_dbn("((..)).(.)"), g1.from_dbn("(([..))..].(.)"), g1.from_dbn("...."),
              g1.from_dbn("(.[[[.)..]]]", "gCaUNcgau?Aa")]
     for s, p in seeds:
-        for x in EXTRA_OPS:
+        for x in EXTRA_OPS + eq_variants(s, p):
             for op in OPS:
                 cases.append((s, p, [x, op]))
                 cases.append((s, p, [op, x, op]))
+        # explicit-solver conversions against each other and against the cached notations, in every order
+        conv = ["convert_none", "convert_default", "convert_raises", "convert_notopt", "dot_bracket", "fcfs"]
+        for a in conv:
+            for b_ in conv:
+                cases.append((s, p, [a, b_, a]))
     kmax = ctx.pick(2, 4)
     for s, p in seeds:
         for k in range(1, kmax + 1):
@@ -119,7 +160,8 @@ def run(ctx):
         if rng.random() < 0.5:
             # one of the further public calls somewhere in the history
             ops = [rng.choice(OPS) for _ in range(k)]
-            ops.insert(rng.randrange(len(ops)), rng.choice(EXTRA_OPS))
+            for _ in range(rng.randint(1, 2)):
+                ops.insert(rng.randrange(len(ops) + 1), rng.choice(EXTRA_OPS + eq_variants(s, p)))
             cases.append((s, p, ops))
         # bias: a removal first, then queries (where aliasing would show)
         cases.append((s, p, [rng.choice(["without_isolated", "without_pseudoknots"])] + [rng.choice(OPS) for _ in range(k - 1)]))
@@ -129,6 +171,7 @@ def run(ctx):
         ps = g1.pstr(pairs)
         db = o["db"][1] if o["db"][0] == "ok" else "err:" + o["db"][1]
         reqs.append(["ss.history", seq, ps, db, ",".join(x for x in ops if x in OPS)]); idx.append((ci, "hist"))
+        reqs.append(["ss.history_ext", seq, ps, db, ",".join(ops)]); idx.append((ci, "hist_ext"))
         if "nopk_text" in o:
             reqs.append(["ss.nopk", seq, ps, db]); idx.append((ci, "nopk"))
         if "noiso_text" in o:
@@ -148,7 +191,30 @@ def run(ctx):
         seq, pairs, ops = cases[ci]
         o = outs[ci]
         inp = {"seq": seq, "pairs": pairs, "ops": ops}
-        if what == "hist":
+        if what == "hist_ext":
+            # the FULL history on the extended object model, compared step by step with the real object's own
+            # answers (state machine vs object) and with fresh objects (what the theorem says the model answers)
+            model = []
+            for a, op in zip(r.split(";") if r else [], ops):
+                if a.startswith("ok:"):
+                    t = bytes.fromhex(a[3:]).decode() if a[3:] != "" else ""
+                    if op == "all_dot_brackets":
+                        t = ",".join(sorted(t.split(",")))
+                    model.append(("ok", t))
+                else:
+                    model.append(("err", a[4:]))
+            if len(model) != len(ops):
+                res.fail("corr", "C12:history_ext:len", inp, "driver answered %r" % (r[:200],))
+                continue
+            for who, real_answers in (("object", o["got"]), ("fresh", o["fresh"])):
+                k = next((i for i, (m, f) in enumerate(zip(model, real_answers)) if m != tuple(f)), None)
+                if k is not None:
+                    opn = ops[k].split("~")[0]
+                    res.fail("corr", "C12:history_ext:%s:%s" % (who, opn), inp,
+                             "extended model differs from the %s's answer at step %d (%s): model=%r real=%r" % (
+                                 "real object" if who == "object" else "fresh object", k, ops[k], model[k], tuple(real_answers[k])))
+                    break
+        elif what == "hist":
             model = []
             mops = [x for x in ops if x in OPS]
             for a, op in zip(r.split(";") if r else [], mops):
@@ -175,7 +241,7 @@ def run(ctx):
         res.case((tuple(pairs), tuple(ops)), nontrivial=npairs > 0 and len(ops) >= 2)
         res.count("len%d" % len(ops))
         for op in ops:
-            res.count("op:" + op)
+            res.count("op:" + op.split("~")[0])
         inp = {"seq": seq, "pairs": pairs, "ops": ops}
         for k, (g, f) in enumerate(zip(o["got"], o["fresh"])):
             if tuple(g) != tuple(f):
